@@ -263,6 +263,108 @@ def index_still_consistent(by_index, item_list):
 
 PROOFS.append(foi)
 
+# ------------------------------------------------------------------------------------------------ texture name block
+# One arbitrary iteration of the _lmp_write_textures loop followed by the statement of _lmp_read_textures that locates
+# the end of a name, for every name (no NUL, < 128 characters) and every earlier content of the string block: the offset
+# written into the table reads back exactly that name, and the block only grows (so offsets written earlier stay valid).
+# Byte strings are modelled as strings of code points 0..255.
+def _tex_read_stmt(fn):
+    import ast as _ast
+    for n in _ast.walk(fn):
+        if isinstance(n, _ast.Assign) and _ast.unparse(n.targets[0]) == 'str_off':
+            return [n]
+    return []
+
+
+def _tex_glue(I, vals):
+    """What the reader sees: the block as it is after this iteration plus whatever later iterations append."""
+    model = vals['data']
+    vals['tex_data'] = z3.Concat(model.fields['text'], z3.String('appended_later'))
+    vals['off'] = vals['table'].fields['written'][-1]
+
+
+TEX = REG.add(Lemma('textures.name_block', PROP, [
+    {'body': 'bsp:BSP._lmp_write_textures', 'loop': 0},
+    {'native': _tex_glue},
+    {'stmts': 'bsp:BSP._lmp_read_textures', 'select': _tex_read_stmt},
+]))
+TEX.raises('OverflowError')
+
+
+@TEX.setup
+def _tex_setup(h):
+    from pyvc.symexec import Builtin, Obj
+    I = h.I
+    I.bytes_as_latin1_str = True
+
+    def ext(I_, obj, name, lineno):
+        if name in ('encode', 'decode'):
+            return Builtin(name, lambda *a, **k: obj)       # ASCII / surrogateescape: one code unit per character
+        return None
+    I.extra_methods = ext
+    tex = h.str('tex')
+    h.assume(z3.Not(z3.Contains(tex, z3.StringVal('\x00'))))
+    before = h.str('block_before')
+    data = Obj('bytearray_model', {'text': before}, module='')
+
+    def find(sub):
+        return z3.IndexOf(data.fields['text'], to_z3(sub), 0)
+
+    def extend(more):
+        data.fields['text'] = z3.Concat(data.fields['text'], to_z3(more))
+    data.fields.update(find=Builtin('find', find), extend=Builtin('extend', extend),
+                       __len__=Builtin('__len__', lambda: z3.Length(data.fields['text'])))
+    table = Obj('BytesIO_model', {'written': []}, module='')
+    table.fields['write'] = Builtin('write', lambda packed: table.fields['written'].append(packed.fields['num']))
+    st = Obj('struct_model', {}, module='')
+    st.fields['pack'] = Builtin('pack', lambda fmt, n: Obj('packed', {'num': n, 'fmt': fmt}, module=''))
+    I.global_overrides = {'struct': st}
+    return {'locals': dict(tex=tex, data=data, table=table), 'ghost': dict(TEX_NAME=tex, BEFORE=before)}
+
+
+@native
+def block_text(I, data):
+    return data.fields['text']
+
+
+@native
+def name_read_at(I, tex_data, off, str_off):
+    off, str_off = to_z3(off), to_z3(str_off)
+    return z3.SubString(to_z3(tex_data), off, str_off - off)
+
+
+@native
+def is_prefix(I, a, b):
+    return z3.PrefixOf(to_z3(a), to_z3(b))
+
+
+@native
+def str_len(I, s):
+    return z3.Length(to_z3(s))
+
+
+@TEX.ensures
+def offset_written_reads_back_exactly_the_name(tex_data, off, str_off, TEX_NAME):
+    return name_read_at(tex_data, off, str_off) == TEX_NAME
+
+
+@TEX.ensures
+def block_only_grows(data, BEFORE):
+    return is_prefix(BEFORE, block_text(data))
+
+
+@TEX.ensures
+def only_names_shorter_than_128_are_written(TEX_NAME):
+    return str_len(TEX_NAME) < 128
+
+
+@TEX.on_raise('OverflowError')
+def rejected_only_when_too_long(TEX_NAME):
+    return str_len(TEX_NAME) >= 128
+
+
+PROOFS.append(TEX)
+
 # ------------------------------------------------------------------------------------------------ LZMA property byte
 lz = REG.add(Lemma('lzma.props_byte', PROP, [{'call': '@spec:dummy', 'args': []}]))
 REG.by_name.pop('lzma.props_byte')
@@ -616,6 +718,12 @@ def b_lzma(ctx):
 BOUNDED.append(b_lzma)
 
 MUTATIONS = [
+    dict(name='texture_needle_without_terminator', file='bsp.py',
+         old="            string = tex.encode('ascii', 'surrogateescape') + b'\\0'\n            ind = data.find(string)\n            if ind == -1:\n                ind = len(data)\n                data.extend(string)",
+         new="            string = tex.encode('ascii', 'surrogateescape')\n            ind = data.find(string)\n            if ind == -1:\n                ind = len(data)\n                data.extend(string + b'\\0')",
+         expect='textures.name_block'),
+    dict(name='texture_limit_off_by_one', file='bsp.py', old="            if len(tex) >= 128:", new="            if len(tex) > 128:",
+         expect='textures.name_block'),
     dict(name='rle_min_256', file='bsp.py', old="            result.append(min(255, dist))", new="            result.append(min(256, dist))", expect='rle'),
     dict(name='rle_step_256', file='bsp.py', old="            dist -= 255\n        pos = zero_end", new="            dist -= 256\n        pos = zero_end", expect='rle.encode'),
     dict(name='rle_decode_skip', file='bsp.py', old="        pos = zero_ind + 2\n\n    # Trim down", new="        pos = zero_ind + 1\n\n    # Trim down", expect='rle.decode'),
